@@ -699,7 +699,12 @@ fn translate_block(
                     TranslateBranchDelay::DelaySlot(instruction.address, instruction_graph)
                 }
                 TranslateBranchDelay::DelaySlot(address, cfg) => {
-                    block_graphs.push((instruction.address, instruction_graph));
+                    // The delay slot belongs to its branch: it gets a key
+                    // of its own (like the +1 below), so that a block which
+                    // starts at the slot's address (a branch into the delay
+                    // slot) is given its own copy of the instruction instead
+                    // of sharing this one, whose successor is the branch.
+                    block_graphs.push((address + 2, instruction_graph));
                     // this +1 is a hack to make parsing BlockTranslationResult
                     // blocks work correctly
                     block_graphs.push((address + 1, cfg));
@@ -713,7 +718,8 @@ fn translate_block(
                     )
                 }
                 TranslateBranchDelay::DelaySlotFallThrough(address, cfg) => {
-                    block_graphs.push((instruction.address, instruction_graph));
+                    // see DelaySlot above
+                    block_graphs.push((address + 2, instruction_graph));
                     // this +1 is a hack to make parsing BlockTranslationResult
                     // blocks work correctly
                     block_graphs.push((address + 1, cfg));
